@@ -761,6 +761,40 @@ def rule_V4(ctx, rid='V4'):
     chol = [st for st in walk_no_nested(g.node) if isinstance(st, ast.Assign) and
             isinstance(st.value, ast.Call) and
             dotted(st.value.func) in ('np.linalg.cholesky', 'scipy.linalg.cholesky', 'cholesky')]
+    # the enlargement is there at all, reaches the matrix contains() and sample() use, and is
+    # applied to A and A_inv alike (they stay inverses of each other)
+    gcfg = cfg_of(g)
+    enl = {}
+    for st in walk_no_nested(g.node):
+        r = as_aug(st) if isinstance(st, (ast.Assign, ast.AugAssign)) else None
+        if r is None or not gcfg.has(st):
+            continue
+        t, o, v = r
+        if any(isinstance(x, ast.Name) and x.id == 'enlarge_per_dim' for x in ast.walk(v)):
+            enl[unparse(t)] = (st, unparse(v))
+    e_inv = [k for k in enl if k.endswith('A_inv')]
+    e_a = [k for k in enl if k.endswith('.A') or k == 'A']
+    ok_inv = bool(e_inv) and len(chol) == 1 and gcfg.has(chol[0]) and \
+        gcfg.dominates(gcfg.node_of(enl[e_inv[0]][0]).id, gcfg.node_of(chol[0]).id)
+    n += 1
+    ctx.ob(rid, 'Ellipsoid.compute:enlargement-reaches-sampling-matrix', ok_inv, g.where(),
+           'A_inv is enlarged before its Cholesky factor is taken: contains() and sample() use '
+           'the enlarged ellipsoid' if ok_inv else
+           'A_inv is not enlarged before the Cholesky factor B is computed: the farthest '
+           'construction point lies exactly on the surface and `contains` (strict <) rejects it')
+    rederived = any(isinstance(st, ast.Assign) and unparse(st.targets[0]).endswith('.A') and
+                    isinstance(st.value, ast.Call) and
+                    dotted(st.value.func) in ('np.linalg.inv', 'inv') and e_inv and
+                    gcfg.has(st) and gcfg.dominates(gcfg.node_of(enl[e_inv[0]][0]).id,
+                                                    gcfg.node_of(st).id)
+                    for st in walk_no_nested(g.node))
+    ok_a = rederived or (bool(e_a) and bool(e_inv) and enl[e_a[0]][1] == enl[e_inv[0]][1])
+    n += 1
+    ctx.ob(rid, 'Ellipsoid.compute:A-and-A_inv-enlarged-alike', ok_a, g.where(),
+           'A and A_inv are scaled by the same power of enlarge_per_dim (they stay inverse to '
+           'each other)' if ok_a else
+           'only one of A / A_inv is enlarged (or by different powers): the stored matrix A '
+           '(overlap tests, checkpoints) and the sampling matrix describe different ellipsoids')
     okc = len(chol) == 1 and chol[0].value.args and unparse(chol[0].value.args[0]) in (
         'A_inv', ainame) and unparse(chol[0].targets[0]).endswith('.B')
     n += 1
